@@ -38,3 +38,28 @@ Print Assumptions C10_refuted.
 Example C10_repaired_witnesses :
   well_sorted (repaired (cfg_insn 0)) w_D2 = Some true /\ well_sorted (repaired (cfg_insn 0)) w_D14 = Some true.
 Proof. split; vm_compute; reflexivity. Qed.
+
+(* ------------------------------------------------------------------ what the sort checker's verdict MEANS (proofs/SortSound.v)
+   `wf_effect` / `sort_of` (sem/RzIL.v) are evaluated in Coq on every real emitted effect; these theorems, for EVERY
+   effect and state, are why a positive verdict excludes the run-time sort errors of the IL validator/VM: a well-sorted
+   pure evaluates, to a value of its sort; a local never holds a value of another sort than the one recorded; a
+   well-sorted, definitely-assigned, loop-free effect runs to completion with any sufficient fuel. *)
+From RZ.proofs Require Import SortSound.
+Theorem C10_well_sorted_pure_evaluates : forall rw p G lets s lv t,
+  env_ok G (locals s) -> env_ok lets lv -> sort_of rw G lets p = Some t ->
+  exists v, eval rw s lv p = Some v /\ sort_of_val v = t.
+Proof. intros rw p G lets s lv t. exact (sort_of_sound rw p G lets s lv t). Qed.
+Print Assumptions C10_well_sorted_pure_evaluates.
+Theorem C10_locals_keep_one_sort : forall rw subs fuel e G G' s s',
+  wf_effect rw G e = Some G' -> calls_opaque subs e -> consistent G' (locals s) ->
+  exec rw subs fuel e s = Some s' ->
+  forall x t v, lookup x G' = Some t -> lookup x (locals s') = Some v -> sort_of_val v = t.
+Proof. intros rw subs fuel e G G' s s'. exact (wf_effect_sort_consistency rw subs fuel e G G' s s'). Qed.
+Print Assumptions C10_locals_keep_one_sort.
+Theorem C10_well_sorted_effect_runs : forall rw subs e G G' H D D' s fuel,
+  wf_effect rw G e = Some G' -> ext G' H -> consistent H (locals s) ->
+  da_effect rw D e = Some D' -> env_ok D (locals s) ->
+  no_repeat e = true -> calls_opaque subs e -> (depth e <= fuel)%nat ->
+  exists s', exec rw subs fuel e s = Some s' /\ env_ok D' (locals s') /\ consistent H (locals s').
+Proof. intros rw subs e G G' H D D' s fuel. exact (wf_effect_progress rw subs e G G' H D D' s fuel). Qed.
+Print Assumptions C10_well_sorted_effect_runs.
